@@ -1,0 +1,33 @@
+//go:build verif
+
+package shell_operator
+
+// Contracts for the verification framework in /verif (comment-only file, build tag `verif`).
+
+// ---- helpers assumed not to touch what the contracts below talk about ----
+//@ package github.com/flant/shell-operator/pkg/utils/labels
+//@ trusted func EnrichLoggerWithLabels
+//@   modifies nothing
+//@ package github.com/flant/shell-operator/pkg/webhook/conversion
+//@ trusted func ExtractAPIVersions
+//@   modifies nothing
+//@ package github.com/flant/shell-operator/pkg/hook
+//@ trusted func (*Manager).FindConversionChain
+//@   modifies nothing
+//@ trusted func (*Manager).HandleConversionEvent
+//@   modifies nothing
+//@ package github.com/flant/shell-operator/pkg/shell-operator
+
+// The task handler runs hooks; it never touches the ConversionRequest of the HTTP layer.
+//@ trusted func (*ShellOperator).taskHandler
+//@   modifies nothing
+
+// C15: the request handed in by the HTTP layer is not modified (the object-count check of
+// handleReviewRequest compares the answer against it).
+//@ func (*ShellOperator).conversionEventHandler
+//@   prop C15
+//@   modifies nothing
+//@   loop 1
+//@     invariant true
+//@   loop 2
+//@     invariant true
